@@ -17,10 +17,25 @@
     reg.masktext <tag> <hex sep> <v>   ttlv.AppendBitmaskString / BitmaskStr (v = uint32 pattern)
     reg.maskbyname <tag> <hex>         ttlv.BitmaskByStr                 (uint32 pattern)
     reg.maskxml|maskjson|maskunmarshal <tag> <hex>   the three readers    (uint32 pattern)
+
+  Typed values (the table is chosen by the Go type through `Gen.typeTags`, not by the element tag);
+  `<ty>` = hex of `reflect.Type.String()`:
+    reg.typedenum <ty> <elem> <v>            Encoder.TagAny(elem, T(v)) in XML / JSON / text
+    reg.typedparse <ty> <elem> <hex>         Decoder.TagAny(elem, *T) on an XML / JSON string value
+    reg.typedmask <ty> <elem> <hex sep> <v>  the same for a bit-mask type
+    reg.typedmaskxml|typedmaskjson <ty> <elem> <hex>
+
+  The PINNED registry (trusted data, `Kmip.Pinned.*`), handed to the harness so that its oracles compare
+  the real code with the pin without a second copy of it:
+    reg.pin tags|tagsbyname|enumtags|enums|enumsbyname|masktags|masks|masksbyname|enumtypes|masktypes
+                                             `ok` followed by blank-separated entries `k:v`, `tag/k:v`
+    reg.pin covers                           `coversRegistry Pinned Gen`   (the obligation `C17.registry_agrees`)
+    reg.pin equal                            `equalsRegistry Pinned Gen`   (information: `C17.registry_equals_pin`)
 -/
 import Driver.Common
 import KmipModel.Model.Registry
 import KmipModel.Gen.Registry
+import KmipModel.Pinned.Registry
 open Kmip Kmip.Reg
 
 namespace Driver
@@ -35,6 +50,35 @@ def regOpt (o : Option Nat) : String :=
   match o with
   | some v => "ok " ++ toString v
   | none => "err"
+
+def regName (n : Nat) : String := regHex (unpack n)
+
+def regJoin (l : List String) : String := "ok" ++ String.join (l.map fun x => " " ++ x)
+
+def regPin (what : String) : String :=
+  match what with
+  | "tags" => regJoin (Pinned.tagNames.map fun p => toString p.1 ++ ":" ++ regName p.2)
+  | "tagsbyname" => regJoin (Pinned.tagByName.map fun p => regName p.1 ++ ":" ++ toString p.2)
+  | "enumtags" => regJoin (Pinned.enums.map fun e => toString e.1)
+  | "enums" => regJoin (Pinned.enums.flatMap fun e =>
+      e.2.1.map fun p => toString e.1 ++ "/" ++ toString p.1 ++ ":" ++ regName p.2)
+  | "enumsbyname" => regJoin (Pinned.enums.flatMap fun e =>
+      e.2.2.map fun p => toString e.1 ++ "/" ++ regName p.1 ++ ":" ++ toString p.2)
+  | "masktags" => regJoin (Pinned.masks.map fun e => toString e.1)
+  | "masks" => regJoin (Pinned.masks.flatMap fun e =>
+      (List.range e.2.1.length).map fun i =>
+        toString e.1 ++ "/" ++ toString i ++ ":" ++ regName (e.2.1.getD i emptyName))
+  | "masksbyname" => regJoin (Pinned.masks.flatMap fun e =>
+      e.2.2.map fun p => toString e.1 ++ "/" ++ regName p.1 ++ ":" ++ toString p.2)
+  | "enumtypes" => regJoin (Pinned.enumTypes.map fun p => regName p.1 ++ ":" ++ toString p.2)
+  | "masktypes" => regJoin (Pinned.maskTypes.map fun p => regName p.1 ++ ":" ++ toString p.2)
+  | "covers" => "ok " ++ toString (coversRegistry Pinned.tagNames Gen.tagNames Pinned.tagByName
+      Gen.tagByName Pinned.enums Gen.enums Pinned.masks Gen.masks Pinned.enumTypes Gen.enumTypes
+      Pinned.maskTypes Gen.maskTypes)
+  | "equal" => "ok " ++ toString (equalsRegistry Pinned.tagNames Gen.tagNames Pinned.tagByName
+      Gen.tagByName Pinned.enums Gen.enums Pinned.masks Gen.masks Pinned.enumTypes Gen.enumTypes
+      Pinned.maskTypes Gen.maskTypes)
+  | _ => "bad-op"
 
 /-- `none` = command not handled here. -/
 def handleRegistry (cmd arg : String) : Option String :=
@@ -97,6 +141,28 @@ def handleRegistry (cmd arg : String) : Option String :=
     match t.toNat?, regBytes h with
     | some t, some s => regOpt (maskFromTextUnmarshal (maskByName Gen.masks t) s)
     | _, _ => "bad-op"
+  | "reg.typedenum", [ty, e, v] =>
+    match regBytes ty, e.toNat?, v.toNat? with
+    | some ty, some e, some v => "ok " ++ regHex (typedEnumToText Gen.typeTags Gen.enums (pack ty) e v)
+    | _, _, _ => "bad-op"
+  | "reg.typedparse", [ty, e, h] =>
+    match regBytes ty, e.toNat?, regBytes h with
+    | some ty, some e, some s => regOpt (typedEnumFromText Gen.typeTags Gen.enums (pack ty) e s)
+    | _, _, _ => "bad-op"
+  | "reg.typedmask", [ty, e, sep, v] =>
+    match regBytes ty, e.toNat?, regBytes sep, v.toNat? with
+    | some ty, some e, some sep, some v =>
+      "ok " ++ regHex (typedMaskToText Gen.typeTags Gen.masks (pack ty) e sep v)
+    | _, _, _, _ => "bad-op"
+  | "reg.typedmaskxml", [ty, e, h] =>
+    match regBytes ty, e.toNat?, regBytes h with
+    | some ty, some e, some s => regOpt (typedMaskFromXml Gen.typeTags Gen.masks (pack ty) e s)
+    | _, _, _ => "bad-op"
+  | "reg.typedmaskjson", [ty, e, h] =>
+    match regBytes ty, e.toNat?, regBytes h with
+    | some ty, some e, some s => regOpt (typedMaskFromJson Gen.typeTags Gen.masks (pack ty) e s)
+    | _, _, _ => "bad-op"
+  | "reg.pin", [what] => regPin what
   | _, _ => "bad-op"
 
 end Driver
